@@ -279,11 +279,26 @@ func init() {
 		if fs != nil {
 			x.callCounter++
 			pt := tup.At(0).Type().(*types.Pointer)
-			obj := x.alloc(fs, VLazy{Typ: pt.Elem(), Name: fmt.Sprintf("url!%d", x.callCounter)})
+			// the string components are uninterpreted functions url.field.<Name> of the parsed text (the spec
+			// builtin urlpart(text, "Name") denotes the same term); everything else is unconstrained
+			origin := x.scalar(fs, c.args[0])
+			var uv Value = VLazy{Typ: pt.Elem(), Name: fmt.Sprintf("url!%d", x.callCounter)}
+			if sv, ok := x.symbolic(fs, pt.Elem(), fmt.Sprintf("url!%d", x.callCounter)).(VStruct); ok {
+				if stt, ok := pt.Elem().Underlying().(*types.Struct); ok && stt.NumFields() == len(sv.F) {
+					f := append([]Value(nil), sv.F...)
+					for k := 0; k < stt.NumFields(); k++ {
+						if b, ok := stt.Field(k).Type().Underlying().(*types.Basic); ok && b.Kind() == types.String {
+							f[k] = VScalar{App(SStr, x.sym.Func("url.field."+stt.Field(k).Name(), []Sort{SStr}, SStr), origin)}
+						}
+					}
+					uv = VStruct{f}
+				}
+			}
+			obj := x.alloc(fs, uv)
 			if x.urlOrigin == nil {
 				x.urlOrigin = map[int]Term{}
 			}
-			x.urlOrigin[obj] = x.scalar(fs, c.args[0])
+			x.urlOrigin[obj] = origin
 			x.completeCall(fs, c, VTuple{[]Value{VPtr{Nil: TFalse, Loc: &Loc{Obj: obj}, Typ: pt}, VIface{Nil: TTrue, Typ: errType()}}})
 		}
 		return true
@@ -632,6 +647,19 @@ func (x *Exec) jsonDecodeInto(st *State, fr *Frame, c *callCtx, data VBytes, tar
 		return true
 	}
 	elemT := iv.Dyn.Underlying().(*types.Pointer).Elem()
+	if _, isPP := elemT.Underlying().(*types.Pointer); isPP {
+		// **T: whether a new object is allocated depends on the inner pointer being nil: decide it first (the
+		// other state re-executes this call with the question settled)
+		if cur, ok := x.force(st, x.load(st, p.Loc)).(VPtr); ok && !cur.Nil.IsTrue() && !cur.Nil.IsFalse() {
+			ts, fs := x.fork(st, cur.Nil, "json.Unmarshal target pointer is nil")
+			if fs != nil && fs != st {
+				x.push(fs)
+			}
+			if ts == nil && fs == nil {
+				return true
+			}
+		}
+	}
 	fail := x.sym.Fresh("json.unmarshal.fails", SBool)
 	// failing path: target possibly partially written; we leave it unchanged (callers discard it)
 	ts, fs := x.fork(st, fail, "json.Unmarshal fails")
@@ -678,6 +706,15 @@ func (x *Exec) decodeStore(s *State, p VPtr, elemT types.Type, data VBytes) {
 			isNull := Eq(data.B, Term{"json.null", SBytes})
 			x.callCounter++
 			name := fmt.Sprintf("json.decoded!%d", x.callCounter)
+			// encoding/json allocates a new T only when the inner pointer is nil; a non-nil inner pointer is
+			// decoded into in place: the object is reused and everything that aliases it sees the new values
+			// (jsonDecodeInto has decided the nil-ness of the inner pointer by a fork before getting here)
+			if cur, ok := x.force(s, x.load(s, p.Loc)).(VPtr); ok && cur.Loc != nil && len(cur.Loc.Path) == 0 && !cur.Nil.IsTrue() && !x.feasible(s, cur.Nil) {
+				s.heap[cur.Loc.Obj] = VLazy{Typ: pt.Elem(), Name: name}
+				x.store(s, p.Loc, VPtr{Nil: isNull, Loc: cur.Loc, Typ: elemT})
+				x.decodedFrom(s, cur.Loc.Obj, pt.Elem(), data.B, name)
+				return
+			}
 			obj := x.alloc(s, VLazy{Typ: pt.Elem(), Name: name})
 			x.store(s, p.Loc, VPtr{Nil: isNull, Loc: &Loc{Obj: obj}, Typ: elemT})
 			x.decodedFrom(s, obj, pt.Elem(), data.B, name)
